@@ -7,7 +7,8 @@ import z3
 from pyvc import sym
 from pyvc.sym import (SSeq, Obj, Opt, TokList, Single, Many, And, Or, Not,
                       Implies, Ite, zint, zbool, fresh_int, fresh_bool,
-                      fresh_seq, forall, lift_str, is_int)
+                      fresh_seq, forall, lift_str, is_int,
+                      Unsupported)
 from pyvc.contracts import Spec, ListS, IntS, BoolS, StrS, ObjS, AnyS
 from pyvc.engine import PyDict, StrSet
 
@@ -367,7 +368,7 @@ class TokS(Spec):
             v = v.obj
         if not isinstance(v, Obj):
             from pyvc.sym import EngineError
-            raise EngineError('%s: expected token, got %r' % (label, v))
+            raise Unsupported('%s: expected token, got %r' % (label, v))
         if self.classes is not None:
             ex.prove(st, label + ':class', cls_is(ex, v, *self.classes), line)
         ex.prove(st, label, self.pred(ex, v), line)
